@@ -144,7 +144,18 @@ def build_table(ref, route, salt=0, ids_as=0):
         oids, sids = np.array(oids), np.array(sids)
     elif ids_as == 2:
         oids, sids = tuple(oids), tuple(sids)
+    elif ids_as == 3:
+        # python str objects in an object array (what a pandas Index holds)
+        oids, sids = np.array(oids, dtype=object), np.array(sids, dtype=object)
     omd = copy.deepcopy(ref.md[0])
     smd = copy.deepcopy(ref.md[1])
+    if salt % 3 == 1:
+        # the same categories, written down in another order for every
+        # second id
+        for md in (omd, smd):
+            if md:
+                for k in range(1, len(md), 2):
+                    if isinstance(md[k], dict):
+                        md[k] = dict(reversed(list(md[k].items())))
     return Table(data, oids, sids, omd, smd, table_id=ref.table_id,
                  type=ref.type, **kw)
